@@ -4,24 +4,60 @@ from wt_common import WT_LEAN, WT_TRUST, wt_engine, e2e_engine, E2E_TRUST
 PROP = {
     "generated": [],
     "lean_modules": WT_LEAN + ["SwimVerif.Proofs.UplinkFlow", "SwimVerif.Proofs.SupplyFifo",
-                               "SwimVerif.Model.CommandOutput", "SwimVerif.Proofs.CommandOutput"],
+                               "SwimVerif.Model.CommandOutput", "SwimVerif.Proofs.CommandOutput",
+                               "SwimVerif.Model.SupplyLane", "SwimVerif.Proofs.SupplyLane",
+                               "SwimVerif.Proofs.SupplyCompose",
+                               "SwimVerif.Model.ReadFeed", "SwimVerif.Proofs.ReadFeed",
+                               "SwimVerif.Model.CommandLane", "SwimVerif.Proofs.CommandLane"],
     "engines": [
         e2e_engine("C14"),
         wt_engine("C14"),
         {"name": "cmd", "crate": "core", "bin": "sv-cmd", "machine": "cmd",
          "cases": {"quick": 4000, "thorough": 400000}, "min_shard": 1000},
+        # agent half of supply lanes: the real SupplyLane (push / sync / write_to_buffer)
+        {"name": "sup", "crate": "core", "bin": "sv-sup", "machine": "sup",
+         "cases": {"quick": 4000, "thorough": 200000}, "min_shard": 1000},
+        # agent half of command + supply lanes: the real agent task (AgentModel) with the harness as the runtime
+        {"name": "cl", "crate": "core", "bin": "sv-cl", "machine": "cl",
+         "cases": {"quick": 3000, "thorough": 100000}, "min_shard": 500, "nontrivial_min_ops": 5},
+        # runtime half of command lanes: the real read task (read_task / LaneSender) under AgentRouteTask
+        {"name": "rf", "crate": "core", "bin": "sv-rf", "machine": "rf",
+         "cases": {"quick": 3000, "thorough": 100000}, "min_shard": 500, "nontrivial_min_ops": 5},
+        # the same with racing remotes and small lane buffers (order across remotes is tokio's): monitor only
+        {"name": "race-rf", "crate": "core", "bin": "sv-rf", "machine": "rf", "modes": ["monitor"],
+         "gen_args": ["race"], "cases": {"quick": 3000, "thorough": 100000}, "min_shard": 500,
+         "nontrivial_min_ops": 5},
     ],
-    "level_text": "Proof. Supply: for every registry and every interleaving of events on any lanes, link messages and "
-                  "write completions in which lane l is a supply lane that stays linked, (sent or in flight) ++ "
-                  "buffered = pushed for l — each item exactly once, in order; with no write in flight everything "
-                  "pushed has been delivered. Agent-sent commands: for every append/write/completion sequence on the "
-                  "CommandOutput and every target, channel ++ in flight ++ pending is a supersession of the appended "
-                  "commands: only a trailing overwritable command is dropped, only by the next command to the same "
-                  "target; order preserved; newest survives. Tied to the real Uplinks/SupplyBackpressure (wt engine) "
-                  "and the real CommandOutput (cmd engine) by differential execution.",
-    "level_note": "Command lanes' handler invocation (read task feed/flush discipline) and the SupplyLane queue inside "
-                  "the agent are covered by the end-to-end rig where present, not by a theorem.",
+    "level_text": "Proof. Supply, runtime: for every registry and every interleaving of events on any lanes, link "
+                  "messages and write completions in which lane l is a supply lane that stays linked, (sent or in "
+                  "flight) ++ buffered = pushed for l — each item exactly once, in order. Supply, agent: for every "
+                  "push/sync/write_to_buffer interleaving written ++ queued = pushed, one frame per write, oldest "
+                  "first, a sync answered by a bare synced, DataStillAvailable exactly while something is queued; in "
+                  "the agent task queued work keeps the lane dirty and a dirty lane has a write in flight; composed "
+                  "with the runtime theorem: delivered ++ in flight ++ buffered ++ lane channel ++ lane queue = "
+                  "supplied, and = delivered at quiescence. Command lanes: for every interleaving of remotes, lanes, "
+                  "idle flushes and agent reads each lane is given exactly the requests the read task picked for it "
+                  "in pick order, per remote exactly what it sent in the order sent, at most one sender holds "
+                  "unflushed data (the needs_flush lane), nothing stranded once idle (with or without the immediate "
+                  "flush); at the agent the on_command handler runs once per validly decoded command with its value "
+                  "in order, never for a body that fails to decode. Agent-sent commands: for every "
+                  "append/write/completion sequence on the CommandOutput and every target, channel ++ in flight ++ "
+                  "pending is a supersession of the appended commands. Tied to the real Uplinks/SupplyBackpressure "
+                  "(wt), CommandOutput (cmd), SupplyLane (sup), the agent task with CommandLane + SupplyLane (cl) and "
+                  "the runtime read task (rf) by differential execution; racing remotes by monitor (race-rf, e2e).",
+    "level_note": "The read task is driven through AgentRouteTask with a lane-holder agent (model comparison when "
+                  "every envelope is followed by a settle; racing remotes are judged by the monitor only). The "
+                  "hand-over between agent task, lane channel and write task is covered by the end-to-end rig, not "
+                  "by differential execution. Lane endpoints that fail and map-like lanes' extract_header are not in "
+                  "the read-feed model.",
     "trusted_base": COMMON_TRUST + WT_TRUST + E2E_TRUST + [
-        "modelled, not verified: RawRequestMessageEncoder (a record is (target, command)), byte channel of the output"],
-    "assumptions": ["the supply lane stays linked to the remote in the exactly-once theorem"],
+        "modelled, not verified: RawRequestMessageEncoder (a record is (target, command)), byte channel of the output",
+        "modelled, not verified (cl, rf): byte channels and FramedRead/FramedWrite at frame granularity (a lane "
+        "output channel smaller than a frame completes a write exactly when the frame is read), tokio current-thread "
+        "scheduling (the runtime settles between harness requests), the Recon decoder of i32 command bodies (a body "
+        "is valid iff it is a short decimal), the derive macros of the test agent and its lifecycle (the handler "
+        "parameter of the model is instantiated with what the rig's lifecycle does)"],
+    "assumptions": ["the supply lane stays linked to the remote in the exactly-once theorems",
+                    "read feed: lane endpoints stay open and all lanes are registered before the first envelope",
+                    "command handler: a handler commands its own lane at most once and that nested handler does not"],
 }
